@@ -84,6 +84,13 @@ func (r *round1) Update(msg model.ConsensusMessage) *Error {
 		return nil
 	}
 
+	// the share must be a signature over this block's hash: VerifySign checks it against the
+	// hash carried in the message, which the sender chooses
+	if si.GetDataHash() != bh.Hash {
+		r.logger.Errorf("sign data hash is not the block hash, id: %s. hash: %s, data hash: %s, height: %d", si.GetSignerID().GetHexString(), bh.Hash.String(), si.GetDataHash().String(), bh.Height)
+		return nil
+	}
+
 	// check data
 	if !si.VerifySign(pk) {
 		r.logger.Errorf("fail to verify sign, id: %s. hash: %s, height: %d", si.GetSignerID().GetHexString(), cvm.BlockHash.String(), bh.Height)
